@@ -51,13 +51,14 @@ def _file_of(pkg, d):
 
 
 SIMPLE_PRIMS = ["int32", "int64", "uint16", "float32", "float64", "string", "bool", "uint8"]
+NO_BOOL = [p for p in SIMPLE_PRIMS if p != "bool"]       # element types of vectors and stream items: std::vector<bool> does not compile in yardl's C++ (C08)
 
 COMPATIBLE = ["add_optional_field", "remove_optional_field", "reorder_fields", "add_step", "add_def", "rename_with_alias"]
 PARTIAL = ["add_field", "remove_field", "widen_field", "make_optional", "widen_vector_field", "widen_step", "make_required"]
 FREE = ["retype_field", "add_protocol", "change_enum"]  # valid packages, but not evolution-safe
 
 
-def apply_edit(pkg: M.Package, rng: Rng, kind: str, only=None):
+def apply_edit(pkg: M.Package, rng: Rng, kind: str, only=None, only_steps=None):
     """Applies one edit in place. Returns a description string, or None if not applicable.
     only: names of the records that record edits are restricted to."""
     recs = _records(pkg)
@@ -112,26 +113,37 @@ def apply_edit(pkg: M.Package, rng: Rng, kind: str, only=None):
         r.fields[i] = (n, Prim(WIDEN[t.name]))
         return "widen_field %s.%s %s->%s" % (r.name, n, t.name, WIDEN[t.name])
     if kind == "widen_vector_field":
-        cands = [(r, i) for r in recs for i, (_, t) in enumerate(r.fields)
-                 if isinstance(t, Vec) and isinstance(t.inner, Prim) and t.inner.name in WIDEN]
+        def _el(t):      # the widenable element of a vector: T or T?
+            # (dynamic vectors only: the generated C++ conversion calls resize() on std::array - C08)
+            if isinstance(t, Vec) and t.length is None and isinstance(t.inner, Prim) and t.inner.name in WIDEN:
+                return t.inner.name, False
+            if isinstance(t, Vec) and t.length is None and isinstance(t.inner, Opt) and isinstance(t.inner.inner, Prim) and t.inner.inner.name in WIDEN:
+                return t.inner.inner.name, True
+            return None
+        cands = [(r, i) for r in recs for i, (_, t) in enumerate(r.fields) if _el(t)]
         if not cands:
             return None
         r, i = rng.choice(cands)
         n, t = r.fields[i]
-        r.fields[i] = (n, Vec(Prim(WIDEN[t.inner.name]), t.length))
-        return "widen_vector_field %s.%s %s*->%s*" % (r.name, n, t.inner.name, WIDEN[t.inner.name])
+        el, opt = _el(t)
+        r.fields[i] = (n, Vec(Opt(Prim(WIDEN[el])) if opt else Prim(WIDEN[el]), t.length))
+        return "widen_vector_field %s.%s %s%s*->%s%s*" % (r.name, n, el, "?" if opt else "", WIDEN[el], "?" if opt else "")
     if kind == "widen_step":
         cands = []
         for p in _protocols(pkg):
             for i, (n, t, st) in enumerate(p.steps):
                 if isinstance(t, Prim) and t.name in WIDEN:
                     cands.append((p, i, Prim(WIDEN[t.name])))
-                elif isinstance(t, Vec) and isinstance(t.inner, Prim) and t.inner.name in WIDEN and not st:
+                elif isinstance(t, Vec) and t.length is None and isinstance(t.inner, Prim) and t.inner.name in WIDEN and not st:
                     # (not for a stream of vectors: the generated C++ conversion nests two loops over the same variable
                     #  names and does not compile - C08, not claimed)
                     cands.append((p, i, Vec(Prim(WIDEN[t.inner.name]), t.length)))
                 elif isinstance(t, Opt) and isinstance(t.inner, Prim) and t.inner.name in WIDEN:
                     cands.append((p, i, Opt(Prim(WIDEN[t.inner.name]))))
+                elif isinstance(t, Vec) and t.length is None and isinstance(t.inner, Opt) and isinstance(t.inner.inner, Prim) and t.inner.inner.name in WIDEN and not st:
+                    cands.append((p, i, Vec(Opt(Prim(WIDEN[t.inner.inner.name])), t.length)))
+        if only_steps is not None:
+            cands = [c for c in cands if c[0].steps[c[1]][0] in only_steps]
         if not cands:
             return None
         p, i, nt = rng.choice(cands)
@@ -169,7 +181,7 @@ def apply_edit(pkg: M.Package, rng: Rng, kind: str, only=None):
         p = rng.choice(ps)
         n = _fresh_member([s for s, _, _ in p.steps], rng)
         shape = rng.choice(["stream", "vector", "optional"])
-        base = Prim(rng.choice(SIMPLE_PRIMS))
+        base = Prim(rng.choice(NO_BOOL))
         if shape == "stream":
             p.steps.append((n, base, True))
         elif shape == "vector":
@@ -202,7 +214,7 @@ def apply_edit(pkg: M.Package, rng: Rng, kind: str, only=None):
         r = rng.choice(recs)
         i = rng.randrange(len(r.fields))
         n, _ = r.fields[i]
-        t = rng.choice([Prim(rng.choice(SIMPLE_PRIMS)), Vec(Prim(rng.choice(SIMPLE_PRIMS))),
+        t = rng.choice([Prim(rng.choice(SIMPLE_PRIMS)), Vec(Prim(rng.choice(NO_BOOL))),
                         Map(Prim("string"), Prim(rng.choice(SIMPLE_PRIMS))), Opt(Prim(rng.choice(SIMPLE_PRIMS)))])
         r.fields[i] = (n, t)
         return "retype_field %s.%s" % (r.name, n)
@@ -211,7 +223,7 @@ def apply_edit(pkg: M.Package, rng: Rng, kind: str, only=None):
         fn = rng.choice(sorted(pkg.files))
         steps = []
         for _ in range(rng.randint(1, 3)):
-            steps.append((_fresh_member([s for s, _, _ in steps], rng), Prim(rng.choice(SIMPLE_PRIMS)), rng.chance(0.5)))
+            steps.append((_fresh_member([s for s, _, _ in steps], rng), Prim(rng.choice(NO_BOOL)), rng.chance(0.5)))
         plain = [r for r in _records(pkg) if not r.params]
         if plain:
             # steps that carry records, so that later record edits reach the new protocol too
@@ -277,7 +289,7 @@ def evolve(pkg: M.Package, rng: Rng, n: int, kinds) -> tuple:
 RECORD_EDITS = ["add_optional_field", "remove_optional_field", "reorder_fields", "add_field", "remove_field", "widen_field", "make_optional", "widen_vector_field", "make_required"]
 
 
-def with_versions(pkg: M.Package, rng: Rng, n_versions: int, partial: bool, must_edit=(), order="oldest_first", p_new_protocol=0.0, layout="siblings") -> M.Package:
+def with_versions(pkg: M.Package, rng: Rng, n_versions: int, partial: bool, must_edit=(), order="oldest_first", p_new_protocol=0.0, layout="siblings", widen_steps=()) -> M.Package:
     """Treat pkg as the oldest version; evolve it n_versions times; the newest package lists all
     its predecessors under `versions:`.  Returns the newest package.
     must_edit: names of records that each get at least one record edit in every evolution step."""
@@ -291,6 +303,12 @@ def with_versions(pkg: M.Package, rng: Rng, n_versions: int, partial: bool, must
         if r3.chance(p_new_protocol):
             # a protocol that the older versions do not have at all (and that later steps may go on to change)
             d = apply_edit(cur, r3, "add_protocol")
+            if d:
+                l.append(d)
+        r4 = rng.fork("widen", i)
+        if widen_steps and partial and r4.chance(0.5):
+            # element types of the named steps (T, T*, T?, T?* and streams of T / T?) get wider
+            d = apply_edit(cur, r4, "widen_step", only_steps=tuple(r4.sample(list(widen_steps), r4.randint(1, len(widen_steps)))))
             if d:
                 l.append(d)
         r2 = rng.fork("must", i)
